@@ -442,6 +442,12 @@ class _FakeWebsocket:
         other = 's' if self.side == 'c' else 'c'
         link.sent[self.side] += 1
         await _wait(k.drain, k.rng)
+        if isinstance(msg, str):
+            link.queues[self.side].put_nowait(('text', msg))
+            return
+        if not isinstance(msg, (bytes, bytearray, memoryview)):
+            # `websockets` sends an iterable as ONE fragmented message: the peer gets the concatenation
+            msg = b''.join(bytes(part) for part in msg)
         link.queues[self.side].put_nowait(bytes(msg))
 
 
